@@ -4,6 +4,7 @@ import (
 	"context"
 	"fmt"
 	"regexp"
+	"runtime"
 	"sort"
 	"strings"
 	"sync"
@@ -113,6 +114,14 @@ func (s *concStore) stamp(ctx context.Context) {
 
 	if rec, ok := ctx.Value(concCommitKey{}).(*int64); ok {
 		*rec = t
+	}
+
+	// a slow backing store: whatever the collection does between this call and its memory write must still be
+	// inside its critical section (other workers get a chance to run here)
+	if t%4 == 0 {
+		time.Sleep(50 * time.Microsecond)
+	} else {
+		runtime.Gosched()
 	}
 }
 
